@@ -65,6 +65,7 @@ def inject_data_fault(prog, rng):
     data delivered (C11 a).  Records the position in prog["fault_info"]."""
     kind = rng.choice(lang.FAULT_KINDS)
     node = ["faulty", kind]
+    wrong_value = rng.random() < 0.15          # evaluates fine, but to a value of the wrong type
     pos = []
     names = list(prog["tasks"].keys())
     for n in names:
@@ -93,6 +94,23 @@ def inject_data_fault(prog, rng):
     else:
         where = rng.choice(pos)
     w = where[0]
+    if wrong_value:
+        cands = [q for q in pos if q[0] in ("concurrency", "delay", "retry_count", "retry_delay", "items")]
+        if cands:
+            where = rng.choice(cands)
+            w = where[0]
+            kind = "wrong_value"
+            bad = rng.choice(["2", 1.5, [2], {"a": 1}]) if w != "items" else rng.choice(["abc", 7, {"a": 1}])
+            prog["vars"].append(["bad_zz", bad])
+            node = ["ctx", "bad_zz"]
+    two = False
+    if w == "when" and not wrong_value and rng.random() < 0.4:
+        # the same failing condition on two transitions of one task: each must be named
+        trs = [i for i, tr in enumerate(prog["tasks"][where[1]].get("next") or []) if "retry" not in (tr.get("do") or [])]
+        if len(trs) >= 2:
+            other = rng.choice([i for i in trs if i != where[2]])
+            prog["tasks"][where[1]]["next"][other]["when"] = node
+            two = other
     if w == "vars":
         prog["vars"].append(["fv_zz", node])
     elif w == "output":
@@ -123,7 +141,7 @@ def inject_data_fault(prog, rng):
         elif w == "publish":
             t["next"][where[2]]["publish"].append(["v0", node])
     prog["fault_info"] = {"pos": w, "task": where[1] if len(where) > 1 else None,
-                      "tr": where[2] if len(where) > 2 else None, "kind": kind}
+                      "tr": where[2] if len(where) > 2 else None, "kind": kind, "tr2": two if two is not False else None}
     return True
 
 
